@@ -88,6 +88,26 @@ Theorem C18_ambiguity_is_average : forall ts, the_tables = FOk ts ->
 Proof. exact ambiguity_is_average_tables. Qed.
 Print Assumptions C18_ambiguity_is_average.
 
+(* ---------------------------------------------------------------- every string over the code tables *)
+Theorem C18_sequence_total : forall ts ty tab name s, the_tables = FOk ts -> tables_get ts ty = Some tab ->
+  (forall c, In c (chars (clean s)) -> tab_get tab (code_key c) <> None) ->
+  exists sm, sequence_of the_env tab name s = FOk sm.
+Proof. exact sequence_total. Qed.
+Print Assumptions C18_sequence_total.
+
+Theorem C18_sequence_unknown_code : forall E tab name s c, In c (chars (clean s)) ->
+  tab_get tab (code_key c) = None -> sequence_of E tab name s = FErr KeyErr.
+Proof. exact sequence_unknown_code. Qed.
+Print Assumptions C18_sequence_unknown_code.
+
+(* ---------------------------------------------------------------- _code_average, for ANY table *)
+Theorem C18_code_average_is_mean : forall E tab bases f v q, code_average E tab bases = FOk (f, v, q) ->
+  exists members, parts_of tab (chars bases) = Some members /\
+    v == qmean (map m_vol members) /\ q == qmean (map m_charge members) /\
+    forall a, cnt_s a (f_struct f) == qmean (map (fun p => cnt_s a (f_struct (m_labile p))) members).
+Proof. exact code_average_is_mean. Qed.
+Print Assumptions C18_code_average_is_mean.
+
 (* ---------------------------------------------------------------- density *)
 Theorem C18_density_is_mass_over_volume : forall E name M0 vol q m, molecule_of E name M0 vol q = FOk m ->
   exists dl dn, f_density (m_labile m) = Some dl /\ f_density (m_natural m) = Some dn /\
